@@ -188,6 +188,9 @@ package peer
 // handleMessage [setbound]: before the metadata is known (no piece count to
 // check against) no message may extend the peer's bitmap beyond bit 2^20 --
 // memory in proportion to the message, not to an attacker-chosen index.
+// (While C16 or C18 is being checked only the obligations of handleMessage
+// that concern that property are generated -- labelled focus clauses; the
+// full check belongs to C05.)
 // PeerInv: what the peer goroutine's state satisfies between two messages:
 // the piece store's geometry is consistent once the metadata is known (before,
 // nothing divides by the piece size), the request queue and the upload queue
@@ -211,6 +214,8 @@ package peer
 //@   ensures  [havebound] typeis_[protocol.Have](m) && old(peer.Info) == nil ==> Ghost_set <= 1<<20
 //@   ensures  [setrange]  old(peer.Info) != nil ==> Ghost_set == 0 || Ghost_set < old(NP(peer))
 //@   splitreturn
+//@   focus    [C16] pre:peer.scheduleUpload.reqok, pre:peer.unchoke.reqok
+//@   focus    [C18] assert:noping
 //@   waive    pre:maybeRequest.below :: that every queued block number stays below the block count across requests.del is not carried by del's contract (it would need 'every remaining element is an old element'); it matters for the conformance of later Requests (C11), not for safety
 //@   waive    pre:maybeRequest.rbits :: in the Piece arm, after Pieces.AddData: AddData's contract frames the whole byte heap (heap:A:uint8), which also holds the request queue's membership bitmap, so its bits are lost to the proof there (AddData writes only piece buffers and piece bitmaps: not expressed)
 //@   waive    panic :: the default arm panics on a message type that protocol.Read cannot produce (C04: Read returns one of its own message types or an error, never nil)
